@@ -26,6 +26,8 @@ WINDS = {
     'left': [(10.0, 90.0, None)],
     'two': [(8.0, 90.0, 200.0), (12.0, 270.0, 500.0)],     # (mph, from degrees, until feet)
     'two_unsorted': [(12.0, 270.0, 500.0), (8.0, 90.0, 200.0)],
+    'head_then_tail': [(20.0, 180.0, 300.0), (20.0, 0.0, None)],     # segment boundary short of typical zero distances
+    'tail_then_head': [(25.0, 20.0, 150.0), (25.0, 200.0, 450.0)],
 }
 
 _CACHE = {}
